@@ -10,7 +10,8 @@ vars == <<scn, file, out, cls>>
 
 LayN(ver, dt, mode, bo, widths, rk, N, off, endc, pad, ev, stext, an, nx) ==
   [ver |-> ver, dt |-> dt, mode |-> mode, bo |-> bo, widths |-> widths, rk |-> rk, N |-> N,
-   off |-> off, endc |-> endc, pad |-> pad, ev |-> ev, stext |-> stext, an |-> an, nx |-> nx]
+   off |-> off, endc |-> endc, pad |-> pad, ev |-> ev, stext |-> stext, an |-> an, nx |-> nx, order |-> "tda"]
+DataFirst(l) == [l EXCEPT !.order = "dta"]
 LayA(ver, dt, mode, bo, widths, rk, N, off, endc, pad, ev, stext, an) ==
   LayN(ver, dt, mode, bo, widths, rk, N, off, endc, pad, ev, stext, an, 0)
 Lay(ver, dt, mode, bo, widths, rk, N, off, endc, pad, ev, stext) ==
@@ -62,6 +63,9 @@ Layouts ==
          {l \in IntLayouts({"3.0"}, {"4321", "1234"}, W8, {"odd"}, {2}, {0}, {"ones"}) : WellFormedI(l)}
     [] Slice = "float" -> FloatLayouts
     [] Slice = "analysis" -> {l \in AnalysisLayouts : (l.off = "text" \/ l.an = "text") => IsV3(l.ver)}
+    [] Slice = "reordered" ->     \* DATA before TEXT: same contents, other segment order
+         {DataFirst(l) : l \in {l \in IntLayouts({"2.0", "3.1"}, {"4321", "12"}, {8, 16, 24}, {"pow", "np"}, {0, 2}, {0, 3}, {"asc"}) : WellFormedI(l)}
+                               \cup {l \in AnalysisLayouts : ((l.off = "text" \/ l.an = "text") => IsV3(l.ver)) /\ l.nx = 0 /\ l.pad = 3}}
     [] Slice = "unsupported" -> Unsupported
     [] Slice = "patterns" -> {l \in PatternLayouts : Len(l.rk) >= Len(l.widths)}
     [] OTHER -> {}
@@ -77,7 +81,10 @@ FaultLayouts ==
              Lay("3.1", "I", "L", "12", <<32, 32>>, <<"pow", "powm3">>, 1, "header", "last", 3, "asc", TRUE),
              Lay("2.0", "D", "L", "21", <<64>>, <<"pow">>, 1, "header", "last", 0, "asc", FALSE),
              LayA("3.0", "I", "L", "1234", <<16>>, <<"pow">>, 2, "header", "last", 0, "asc", FALSE, "header"),
-             LayA("3.1", "I", "L", "4321", <<8, 8>>, <<"pow", "pow">>, 1, "text", "onepast", 3, "asc", TRUE, "text") }
+             LayA("3.1", "I", "L", "4321", <<8, 8>>, <<"pow", "pow">>, 1, "text", "onepast", 3, "asc", TRUE, "text"),
+             DataFirst(Lay("2.0", "I", "L", "4321", <<16, 16>>, <<"pow", "np">>, 2, "header", "last", 0, "asc", FALSE)),
+             DataFirst(Lay("3.1", "I", "L", "1234", <<8, 16>>, <<"pow", "pow">>, 1, "text", "onepast", 3, "asc", TRUE)),
+             DataFirst(Lay("3.0", "F", "L", "1234", <<32>>, <<"pow">>, 2, "header", "last", 0, "asc", FALSE)) }
       more == { Lay(v, "I", "L", bo, ws, [p \in 1..Len(ws) |-> "pow"], n, off, ec, 0, "asc", st) :
                   v \in {"2.0", "3.1"}, bo \in {"4321", "1234"}, ws \in {<<8>>, <<16, 8>>, <<24>>, <<16, 32>>},
                   n \in {0, 1, 2}, off \in {"header", "text"}, ec \in {"last", "onepast"}, st \in {FALSE} }
